@@ -222,6 +222,8 @@ def judge(rec):
                 exp = L.render(("err", orc[1]))
                 if body != exp:
                     probs.append(("oracle", "arguments after the failed call: expected %s" % exp))
+    if f.startswith("@") and body.startswith("err") and cls != "arity":
+        probs.append(("oracle", "expected an arity error (the call is outside the documented arity), got a different error"))
     m = rec["model"]
     if m is not None and m not in ("skip", "sortfuel"):
         if m == "sorterr":
@@ -291,8 +293,73 @@ def _run(ctx, quick, broken, exe, janet, workdir):
     cases = corpus_cases()
     ncorpus = len(cases)
     cases += [g.case() for _ in range(n)]
+    # ---- arity family: every C library function of the list, through a first-class value, with fewer arguments than its
+    # documented minimum (0 … min-1, a prefix of a well-typed call) and with one more than its documented maximum
+    arity = L.documented_arity(ctx.build.tree)
+    ar_cases, ar_need = [], {}
+    doc_vs_code = {}
+    for f, (lo, hi, code) in arity.items():
+        # too few arguments: below the documented minimum (and below the one in the code, where it is literal)
+        lo_eff = lo if code is None else min(lo, code[0])
+        ar_need[f] = {("u", k): 2 for k in range(lo_eff)}
+        # too many: only where documentation and code agree on a maximum (a usage string that omits an accepted optional
+        # argument is a documentation inaccuracy, listed in the evidence, not a violation)
+        if code is not None and (lo, hi) != code:
+            doc_vs_code[f] = {"documented": [lo, hi], "code": list(code)}
+        if hi is not None and code is not None and code[1] == hi:
+            ar_need[f][("o", hi + 1)] = 2
+        arity[f] = (lo_eff, hi)
+    for c in cases[ncorpus:]:
+        f, args = c
+        need = ar_need.get(f)
+        if not need or not any(need.values()) or any(a[0] == 'r' for a in args):
+            continue
+        lo, hi = arity[f]
+        wanted = [k for k in range(0, min(lo, len(args) + 1)) if need.get(("u", k))]
+        over = hi is not None and len(args) == hi and need.get(("o", hi + 1))
+        if not wanted and not over:
+            continue
+        try:
+            o = L.oracle(c)
+        except Exception:
+            o = None
+        if not o or o[0] != "ok":
+            continue                      # only prefixes / extensions of calls that are well-typed
+        for k in wanted:
+            need[("u", k)] -= 1
+            ar_cases.append(("@" + f, list(args[:k])))
+        if over:
+            need[("o", hi + 1)] -= 1
+            ar_cases.append(("@" + f, list(args) + [L.I(0)]))
+    # every function of string.c / buffer.c / array.c / tuple.c with a documented minimum >= 1, called with no argument at all
+    # (needs no well-typed prefix, so also the functions that the generators do not otherwise call)
+    lib4 = L.documented_arity(ctx.build.tree, files=("src/core/string.c", "src/core/buffer.c", "src/core/array.c", "src/core/tuple.c"))
+    have0 = set(f for f, a in ar_cases if not a)
+    for f in sorted(lib4):
+        if arity.get(f, (0, 0))[0] >= 1 and ("@" + f) not in have0:
+            ar_cases.append(("@" + f, []))
+    cases += ar_cases
     ctx.say("running %d cases (%d corpus) on janet(asan), model driver and python oracle" % (len(cases), ncorpus))
     recs, crashes = evaluate(ctx, janet, exe, cases, workdir, "main")
+    # ---- the arity family once more on the asan_debugstack variant (JANET_DEBUG: the fiber stack is reallocated to its exact
+    # size on every change, so a read of argv[k] with k >= argc is outside the allocation and ASan reports it even when the
+    # stale slot happens to hold a value of the accepted type).  Thorough tier, or VERIF_C17_DEBUGSTACK=1.
+    dbg_info = None
+    if ar_cases and (not quick or os.environ.get("VERIF_C17_DEBUGSTACK")):
+        dbg = ctx.try_variant("asan_debugstack")
+        if dbg:
+            recs_d, crashes_d = evaluate(ctx, dbg["janet"], None, ar_cases, workdir, "aritydbg")
+            bad_d = [r for r in recs_d if any(k == "oracle" for k, _ in judge(r))]
+            dbg_info = {"calls": len(ar_cases), "crashes": len([c for c in crashes_d if c["id"] is not None]), "non_arity_errors": len(bad_d)}
+            base = len(cases)
+            cases += [r["case"] for r in bad_d[:8]]
+            for i, r in enumerate(bad_d[:8]):
+                r["id"] = base + i
+                recs.append(r)
+            for cr in crashes_d:
+                if cr["id"] is not None:
+                    cases.append(ar_cases[cr["id"]])
+                    crashes.append(dict(cr, id=len(cases) - 1))
     # ---- bounded-exhaustive: KMP mirror (Lib/Kmp.lean) = naive definitions (Lib/Spec.lean) over {a,b}
     kmp_ex = None
     if exe:
@@ -405,6 +472,10 @@ def _run(ctx, quick, broken, exe, janet, workdir):
                                    "(mirror = Spec compared on every generated call; "
                                    "a disagreement prints MIRROR-MISMATCH / MIRROR-UB and counts as a model difference)",
         "search_family_exhaustive_on_impl": {"pattern_text_pairs": kx_n, "calls": kx_n * 4, "differing_patterns": len(kx_bad)},
+        "arity_family": {"calls": len(ar_cases), "functions": len(set(f for f, _ in ar_cases)),
+                         "documentation_vs_code_arity": doc_vs_code, "on_asan_debugstack": dbg_info,
+                         "rule": "function called through a first-class value with 0..min-1 arguments (prefix of a well-typed call) and with max+1; "
+                                 "min/max from the usage string of JANET_CORE_FN; expected: an error whose message says arity"},
         "tested_only": "string/format / buffer/format: the subset %% %d %i %x %X %o %c %s (flags, width, precision) has a Lean definition (Lib/Format.lean) compared with the implementation; %f %e %g are compared with python % formatting only; %v %q %p %j etc. are not exercised. Conformance of every definition to the C code is by correspondence, not proof.",
     }
     return ctx.finish("proof", cov, assumptions=[
